@@ -19,6 +19,7 @@ type Replay struct {
 	Transit  *rh.TransitScript `json:"transit,omitempty"`
 	Book     []rh.BOp          `json:"book,omitempty"`
 	MaxConns int               `json:"max_conns,omitempty"`
+	ET       *rh.ETScenario    `json:"exit_transit,omitempty"`
 }
 
 // ---------------------------------------------------------------------------
@@ -273,12 +274,15 @@ func main() {
 		coq = append(coq, rh.CoqACase(*rp.Transit, obs))
 	}
 	_ = coqB
+	var etReplay *rh.ETScenario
 	if c.Replay != "" {
 		var rp Replay
 		if err := c.ReadReplay(&rp); err != nil {
 			panic(err)
 		}
 		switch rp.Kind {
+		case "exittransit":
+			etReplay = rp.ET
 		case "table":
 			runTable(rp)
 		case "transit":
@@ -361,6 +365,36 @@ func main() {
 			monitorBookDrained(c, rp, obs)
 			bookCases = append(bookCases, rh.CoqBCase(rp.MaxConns, rp.Book, obs))
 		}
+	}
+	// one agent that is exit for peer 1 and transit for peer 2 with equal numeric
+	// ids: after the relayed tunnel ends (CLOSE / RESET from either side) and then
+	// the exit tunnel, the relay tables and the exit endpoints must be empty
+	// (monitor only; these cases come after every model-backed case)
+	runET := func(sc rh.ETScenario) {
+		rp := Replay{Kind: "exittransit", Name: fmt.Sprintf("exit+transit fam=%d dir=%s kind=%d", sc.Fam, sc.Dir, sc.Kind), ET: &sc}
+		var o rh.ETObs
+		var err error
+		if p := vh.Recover(func() { o, err = rh.RunExitTransit(sc) }); p != "" || err != nil {
+			c.Fail("panic", fmt.Sprintf("%s: %s %v", rp.Name, p, err), rp)
+			return
+		}
+		c.Count(fmt.Sprintf("exit+transit:%d/%s/%d", sc.Fam, sc.Dir, sc.Kind))
+		c.Case(rp.Name, true, rp)
+		if !o.OpenedExit || o.RelayDownID == 0 {
+			c.Fail("harness-timeout", rp.Name+": scenario could not be set up: "+o.Notes, rp)
+			return
+		}
+		_, drain := rh.CheckExitTransit(sc, o)
+		for _, d := range drain {
+			c.Fail("relay-entry-leak-behind-local-endpoint", rp.Name+": "+d, rp)
+		}
+	}
+	if c.Replay == "" {
+		for _, sc := range rh.AllExitTransit() {
+			runET(sc)
+		}
+	} else if etReplay != nil {
+		runET(*etReplay)
 	}
 	var sb strings.Builder
 	sb.WriteString("From Coq Require Import List NArith ZArith Bool.\nFrom MM Require Import Model.Relay Model.ExitBook.\nImport ListNotations.\nLocal Open Scope N_scope.\n")
